@@ -59,6 +59,7 @@ type divT struct {
 type stepStats struct {
 	hits, misses, bypass, evictions, guardMisses, resets, replaces, execs, execStale, errResults, planResults int
 	steps                                                                                                  int
+	collReqs, collPairs                                                                                    int // normalised requests with / pairs of SynthArgs that print alike under %v but differ
 }
 
 type modelStep struct {
@@ -267,6 +268,10 @@ func runHistory(h *historyT, drv *hx.Driver, st *stepStats, fpCheck bool) (*divT
 						return
 					}
 					info, nk, ownSynth = "ok", key, synth
+					if n := fmtCollidingPairs(synth); n > 0 {
+						st.collReqs++
+						st.collPairs += n
+					}
 					if drv != nil {
 						if dd := checkNormaliserModel(drv, i, q, opn, doc, nd, synth, key); dd != nil {
 							d = dd
@@ -472,6 +477,27 @@ func unhexAll(xs []string) []string {
 		out = append(out, fmt.Sprintf("%q", unhex(x)))
 	}
 	return out
+}
+
+// fmtCollidingPairs counts the pairs of SynthArgs of one request whose values are different (JSON) but have the same
+// fmt %v text (["a b"] / ["a","b"], [] / [""], map[a:1 b:2]): the inputs on which a dedupe table keyed on a non-injective
+// rendering of the value would merge two literals. Histogram only; the verdict comes from the comparisons.
+func fmtCollidingPairs(synth map[string]interface{}) int {
+	type rv struct{ v, j string }
+	var rs []rv
+	for _, v := range synth {
+		b, _ := json.Marshal(v)
+		rs = append(rs, rv{fmt.Sprintf("%v", v), string(b)})
+	}
+	n := 0
+	for i := range rs {
+		for j := i + 1; j < len(rs); j++ {
+			if rs[i].v == rs[j].v && rs[i].j != rs[j].j {
+				n++
+			}
+		}
+	}
+	return n
 }
 
 // normMap renders synthetic arguments canonically (nil and empty are the same)
@@ -811,6 +837,42 @@ func defaultCapHistory(mode string) historyT {
 	return h
 }
 
+// familyHistory serves EVERY member of one family through a normalising cache, deterministically: per member and per
+// (operation name, variable assignment) a Get (miss), the same Get again (hit), a re-execution of the first plan; then all
+// members once more (hits with the default capacity; with a small capacity the members evict each other and miss again).
+func familyHistory(fam string, maxEntries int) historyT {
+	h := historyT{Mode: "norm-safe", MaxEntries: maxEntries}
+	var members []poolEntry
+	for _, f := range families() {
+		for _, e := range f {
+			if e.Family == fam {
+				members = append(members, e)
+			}
+		}
+	}
+	for _, e := range members {
+		h.Pool = append(h.Pool, hex.EncodeToString([]byte(e.Q)))
+		h.PoolText = append(h.PoolText, fmt.Sprintf("%q", e.Q))
+	}
+	id := 0
+	add := func(o opT) int { o.ID = id; id++; h.Ops = append(h.Ops, o); return o.ID }
+	for round := 0; round < 2; round++ {
+		for qi, e := range members {
+			for _, opn := range e.Ops {
+				for _, vars := range e.Vars {
+					g := opT{K: "get", Q: qi, Op: hex.EncodeToString([]byte(opn)), Vars: varsText(vars)}
+					first := add(g)
+					if round == 0 {
+						add(g)
+						add(opT{K: "exec", Ref: first, Vars: varsText(vars)})
+					}
+				}
+			}
+		}
+	}
+	return h
+}
+
 // ---------------------------------------------------------------- probes of the recorded normaliser defects
 
 type probe struct {
@@ -889,7 +951,7 @@ func main() {
 	detectKeyModes()
 	run.Res.Extra["key_mode"] = map[string]string{"normalised_document": keyMode, "key_shape": keyShape}
 	run.Tag("key:" + keyMode + "/" + keyShape)
-	run.Res.Rule = "histories of Get / ExecutePlan / Reset / schema replacement (two slots, same shape, new pointer per replacement) over a pool of 6-30 requests drawn as near-miss pairs from fifteen families (duplicate input-object field names inside extractable literals at any depth, one response key with literal arguments in the operation and in a fragment it spreads, second spread of a fragment already spread elsewhere present / absent / with a directive, definitions the selected operation does not reach, equal literals under every wrapper shape of one input type, list / input-object literals for resolvers that mutate their arguments, one literal, one alias, argument order/name, operation names, text imitating the key encodings incl. \\x00 and multi-byte, variables + dynamic directives, object/list/interface/union/fragment shapes, rejected requests, formerly normaliser-unsafe shapes D-06b…g), caps {1,2,3,5,default}, MaxQueryBytes {default,40,64} with over-size and at-limit twins, nil cache 1/25; modes raw 60% / Normalize=true 40% (norm-safe, norm-any = with adversarial operation names); non-trivial = the history has a hit and at least one of eviction, schema-guard miss, reset, bypass, re-execution of a stale plan; distinct by the whole history"
+	run.Res.Rule = "histories of Get / ExecutePlan / Reset / schema replacement (two slots, same shape, new pointer per replacement) over a pool of 6-30 requests drawn as near-miss pairs from sixteen families (dedupeCollision: two or more different literals of one list / input-object / enum-list argument type in one operation whose coerced Go values have the same fmt %v text, next to equal literals and different spellings of one value — also served member by member in two fixed histories —, duplicate input-object field names inside extractable literals at any depth, one response key with literal arguments in the operation and in a fragment it spreads, second spread of a fragment already spread elsewhere present / absent / with a directive, definitions the selected operation does not reach, equal literals under every wrapper shape of one input type, list / input-object literals for resolvers that mutate their arguments, one literal, one alias, argument order/name, operation names, text imitating the key encodings incl. \\x00 and multi-byte, variables + dynamic directives, object/list/interface/union/fragment shapes, rejected requests, formerly normaliser-unsafe shapes D-06b…g), caps {1,2,3,5,default}, MaxQueryBytes {default,40,64} with over-size and at-limit twins, nil cache 1/25; modes raw 60% / Normalize=true 40% (norm-safe, norm-any = with adversarial operation names); non-trivial = the history has a hit and at least one of eviction, schema-guard miss, reset, bypass, re-execution of a stale plan; distinct by the whole history"
 	run.Res.Rule += " || interleaved Gets: a complete Get (and a third one inside it) nested between the lookup and the store of another Get through a custom scalar's ParseLiteral hook; all of Normalize on/off x caps {1,2,default} x nested Get on the same / the other schema pointer x same / other key x pre-populated entry (none, other schema same key, same schema other key) x third Get (none, A, B) x a sibling Get for the other request inside the outer one x which schema asks first afterwards; compared with the model run on the same lookup/store primitives (hit/miss, which Get's plan a hit returns, key list in MRU order + length + counters whenever no Get is in flight) and with graphql.Do on the request's own schema"
 	run.Res.Assumptions = []string{
 		"Normalize=true is compared with graphql.Do on every history and every pool (the shapes that exhibited D-06b…g are part of the pool since their repair); mode norm-any differs from norm-safe only by also drawing adversarial operation names",
@@ -910,7 +972,8 @@ func main() {
 		}
 		for tag, n := range map[string]int{"step:hit": st.hits, "step:miss": st.misses, "step:bypass-or-nolookup": st.bypass, "step:eviction": st.evictions,
 			"step:schema-guard-miss": st.guardMisses, "step:reset": st.resets, "step:replace": st.replaces, "step:exec": st.execs, "step:exec-of-stale-schema-plan": st.execStale,
-			"step:error-result": st.errResults, "step:plan-result": st.planResults} {
+			"step:error-result": st.errResults, "step:plan-result": st.planResults,
+			"dedupeCollision:normalised-request-with-two-different-literals-of-equal-%v-text": st.collReqs, "dedupeCollision:pairs-of-such-literals": st.collPairs} {
 			run.Res.Histogram[tag] += n
 		}
 		nontrivial := st.hits > 0 && (st.evictions+st.guardMisses+st.resets+st.bypass+st.execStale > 0)
@@ -955,11 +1018,31 @@ func main() {
 		oneNested(run, drv, sc)
 	}
 
+	// every member of the family dedupeCollision through a normalising cache (default capacity: second round hits; capacity 2:
+	// the members evict each other), before the random histories so that the family runs whatever the seed draws
+	for _, capN := range []int{0, 2} {
+		if run.TooManyViolations() {
+			break
+		}
+		one(familyHistory("dedupeCollision", capN), false)
+		run.Tag("special:dedupeCollision-every-member")
+	}
+
 	n := run.N(1500, 5000)
 	for i := 0; i < n && !run.TooManyViolations(); i++ {
 		r := hx.Fork(run.Seed, i)
-		h, _ := genHistory(r, run.Thorough())
+		h, gp := genHistory(r, run.Thorough())
 		one(h, true)
+		seen := map[string]bool{}
+		for _, e := range gp.entries {
+			if !seen[e.Family] {
+				seen[e.Family] = true
+				run.Tag("family:" + e.Family)
+				if e.Family == "dedupeCollision" && h.Mode != "raw" {
+					run.Tag("dedupeCollision:random-history-normalising")
+				}
+			}
+		}
 	}
 	// the default capacity: fill past 1024 entries and come back to the oldest ones (long; only when all is well so far)
 	if len(run.Res.Violations) == 0 {
